@@ -9,7 +9,10 @@
 //!   AES-256 block              = uf(AES256_BLOCK,  plain, key(32),   msg = block(16),                 out 16)
 //!   P-384 public key           = uf(P384_PK,       ideal, key = scalar(48), msg = [],                 out 49)   compressed SEC1, tag 02/03
 //!   ECDSA r / s                = uf(P384_SIG,      ideal, key = pk(49) [‖ signer-private bytes], msg = digest(48) ‖ [0] / [1], out 48)
-//!                                (two 48-byte halves because vmodel-core::OCAP is 64), each assumed in 1..n-1
+//!                                (two 48-byte halves because vmodel-core::OCAP is 64), each assumed in 1..n-1; s may be low or high.
+//!                                Verification (all models and `ecdsa_verify` below): r was produced for (pk, digest) and s OR n - s
+//!                                was produced for it — the specification does not require low-S, and ECDSA is malleable in exactly
+//!                                this way ((r, s) and its twin (r, n - s) verify together).
 //!   ECDH x-coordinate          = uf(P384_DH,       plain, key = [],  msg = min(xA,xB) ‖ max(xA,xB),   out 48)   x = X coordinate (pk[1..49])
 //! Facts checked against the official test vectors (paseto-test/tests/vectors/k3.*.json) with an independent
 //! implementation before transcription: PIE k3 truncates Ak to 32 bytes, PBKW k3 and PKE k3 use the full 48-byte Ak.
@@ -118,6 +121,35 @@ pub fn p384_scalar_in_range(v: &[u8]) -> bool {
     }
     nonzero && lt
 }
+/// n - v for a 48-byte big-endian 0 < v < n (the s component of the twin signature). Exact ripple-borrow subtraction.
+pub fn p384_neg_scalar(v: &[u8]) -> [u8; 48] {
+    assert!(v.len() == 48);
+    let mut o = [0u8; 48];
+    let mut borrow: u16 = 0;
+    let mut i = 48;
+    while i > 0 {
+        i -= 1;
+        let t = 256 + P384_N[i] as u16 - v[i] as u16 - borrow; // 0 ..= 511
+        o[i] = (t & 0xff) as u8;
+        borrow = 1 - (t >> 8);
+    }
+    o
+}
+/// "high S": v > floor(n/2), i.e. (n odd) v > n - v
+pub fn p384_is_high(v: &[u8]) -> bool {
+    let neg = p384_neg_scalar(v);
+    let mut gt = false;
+    let mut decided = false;
+    let mut i = 0;
+    while i < 48 {
+        if !decided && v[i] != neg[i] {
+            gt = v[i] > neg[i];
+            decided = true;
+        }
+        i += 1;
+    }
+    gt
+}
 /// Compressed SEC1 public key of a secret scalar (tag 02/03 ‖ X)
 pub fn p384_pk(sk: &[u8; 48]) -> [u8; 49] {
     let mut o = [0u8; 49];
@@ -139,14 +171,29 @@ pub fn ecdsa_sign(pk: &[u8; 49], digest: &[u8; 48]) -> [u8; 96] {
     sig[48..].copy_from_slice(&ecdsa_half(pk, digest, 1));
     sig
 }
-/// Ideal-signature verification: valid iff `sig` was produced by a signer holding the key of `pk` for exactly this digest
-/// (whatever signer-private nonce material it used).
+/// The twin (r, n - s) of a signature (r, s): the other signature that verifies for the same key and digest. A signer that
+/// normalises to low-S (paseto-v3 does, paseto-v3-aws-lc and the reference implementations do not) emits whichever of the two
+/// has s <= floor(n/2).
+pub fn ecdsa_twin(sig: &[u8; 96]) -> [u8; 96] {
+    let mut t = *sig;
+    let neg = p384_neg_scalar(&sig[48..]);
+    t[48..].copy_from_slice(&neg);
+    t
+}
+/// Ideal-signature verification with ECDSA's malleability: valid iff r and s are in 1..n-1, r was produced by a signer holding
+/// the key of `pk` for exactly this digest (whatever signer-private nonce material it used) and s or n - s was produced with it.
+/// The specification does NOT require low-S: both forms are specification-conforming.
 pub fn ecdsa_verify(pk: &[u8; 49], digest: &[u8; 48], sig: &[u8]) -> bool {
     if sig.len() != 96 {
         return false;
     }
+    if !p384_scalar_in_range(&sig[..48]) || !p384_scalar_in_range(&sig[48..]) {
+        return false;
+    }
+    let m1 = cat(&[digest, &[1]]);
     let r = vmodel_core::was_output_of_kp(alg::P384_SIG, pk, cat(&[digest, &[0]]).as_slice(), &sig[..48]);
-    let s = vmodel_core::was_output_of_kp(alg::P384_SIG, pk, cat(&[digest, &[1]]).as_slice(), &sig[48..]);
+    let s = vmodel_core::was_output_of_kp(alg::P384_SIG, pk, m1.as_slice(), &sig[48..])
+        | vmodel_core::was_output_of_kp(alg::P384_SIG, pk, m1.as_slice(), &p384_neg_scalar(&sig[48..]));
     r && s
 }
 /// m2 = PAE(pk, h, m, f, i) hashed with SHA-384 (the message ECDSA signs); h = "v3" ‖ suffix ‖ ".public."
@@ -155,7 +202,7 @@ pub fn public_digest(pk: &[u8; 49], m: &[u8], suffix: &[u8], f: &[u8], i: &[u8])
     let m2 = pae(&[pk, h.as_slice(), m, f, i]);
     sha384(m2.as_slice())
 }
-/// v3.public Sign: out = m ‖ sig
+/// v3.public Sign: out = m ‖ sig, sig = the RFC 6979 pair (r0, s0) as produced (not normalised; `ecdsa_twin` gives the other form)
 pub fn public_sign(sk: &[u8; 48], m: &[u8], suffix: &[u8], f: &[u8], i: &[u8], out: &mut [u8]) {
     assert!(out.len() == m.len() + 96);
     let pk = p384_pk(sk);
